@@ -246,6 +246,7 @@ def _c16_compounds(bodies, tests, iters, with_else=True):
         for it in iters:
             yield "for _ in %s:\n%s" % (it, _ind(b))
         yield "with cm():\n%s" % _ind(b)
+        yield "with swallow():\n%s" % _ind(b)
         yield "try:\n%s\nexcept E:\n    pass" % _ind(b)
         yield "try:\n%s\nfinally:\n    effect()" % _ind(b)
     if with_else:
@@ -278,6 +279,14 @@ class cm:
 
     def __exit__(self, *args):
         return False
+
+
+class swallow:
+    def __enter__(self):
+        return self
+
+    def __exit__(self, *args):
+        return True
 
 
 def seq():
@@ -356,6 +365,9 @@ C16_EXPRS = [
     "str(noisy(a))", "sorted([noisy(a)])", "(noisy(i) for i in (1, 2))", "list(noisy(i) for i in (1, 2))",
     "[i for i in (1, 2) if noisy(i)]", "[i for i in [noisy(1)]]", "[j for i in (1,) for j in [noisy(i)]]",
     "a == noisy(a)", "not noisy(a)", "obj.m(a)", "obj.attr", "Obj().m(a)", "Obj()", "Quiet()", "Loud()",
+    "both_branches_return(a)", "returns_after_noise(a)", "list(map(noisy, [1, 2]))", "list(map(pure, [1, 2]))",
+    "sorted([2, 1], key=noisy)", "sorted([2, 1], key=pure)", "max([1, 2], key=lambda q: noisy(q))", "min([1, 2], key=lambda q: q)",
+    "list(filter(noisy, [1]))", "list(filter(None, [1]))", "any(map(noisy, [1]))",
     "Blank()", "NewLoud()", "Child()", "Both()", "[Loud() for _ in (1,)]", "Blank() and Loud()", "Loud if a else Blank",
     "''.join(['x'])", "'x'.upper()", "TAPE.pop()", "effect()", "cond()", "inp()", "max(a, noisy(a))", "a", "7000", "None",
     "'doc'", "...", "a[0] if 0 else 1", "(yield_ := noisy(a))", "(b := a)", "pure(noisy(a))", "pure(pure(a))",
@@ -369,6 +381,7 @@ C16_STMTS = [
     "if a:\n    pass\nelse:\n    noisy(a)", "while pure(a) > 100:\n    pass", "with cm():\n    pass", "assert a or not a",
     "assert noisy(a) or True", "global G", "import math", "def _():\n    pass", "def helper():\n    noisy(1)",
     "class _:\n    noisy(1)", "lambda: 0", "try:\n    pure(a)\nexcept E:\n    pass", "pass", "return_ = 1",
+    "try:\n    raiser(a)\n    print('not raised')\nexcept E:\n    print('raised')", "next(ITER)\nprint(next(ITER))",
     "[noisy(i) for i in (1, 2)]\npure(a)", "_ = [noisy(i) for i in (1, 2)]", "_ = {noisy(a): 1}", "_ = a if noisy(a) else 0",
     "_ = f'{noisy(a)}'", "_ = (lambda: noisy(a))()", "_ = obj.m(a)", "_[0] = noisy(a)", "_.x = 1",
 ]
@@ -413,6 +426,27 @@ class Loud:
 class Blank:
     def __init__(self):
         pass
+
+
+def raiser(x):
+    raise E(x)
+
+
+def both_branches_return(x):
+    if x > 0:
+        print("positive", x)
+        return 1
+    else:
+        print("other", x)
+        return 2
+
+
+def returns_after_noise(x):
+    print("noise", x)
+    return x
+
+
+ITER = iter([1, 2, 3, 4, 5, 6, 7, 8])
 
 
 class NewLoud:
